@@ -233,7 +233,29 @@ func LooseEq(a, b Val) bool {
 		}
 		return a.S == b.S
 	}
-	leave("== on arrays")
+	// arrays and hashes: equal when they have the same keys in the same
+	// order and equal elements
+	if a.K == KArr || a.K == KHash {
+		if len(a.A) != len(b.A) {
+			return false
+		}
+		for i := range a.A {
+			if a.K == KHash && a.Keys[i] != b.Keys[i] {
+				if len(a.A) > 1 {
+					leave("== on hashes with keys in different order")
+				}
+				return false
+			}
+			if a.A[i].K != b.A[i].K {
+				leave("== between different kinds")
+			}
+			if !LooseEq(a.A[i], b.A[i]) {
+				return false
+			}
+		}
+		return true
+	}
+	leave("== on other values")
 	return false
 }
 
